@@ -25,26 +25,66 @@ pub fn worker(inp: &str, out: &std::path::Path) {
             let ext = it.next().unwrap_or("bin");
             let data = unhex(it.next().unwrap_or("-"));
             let t0 = Stopwatch::start();
-            let r = catch(std::panic::AssertUnwindSafe(|| Buffer::from_bytes(std::path::Path::new(&format!("a.{}", ext)), true, &data)));
+            let r = catch(std::panic::AssertUnwindSafe(|| Buffer::from_bytes(std::path::Path::new(&format!("a.{}", ext)), true, &data).map_err(|e| e.to_string())));
             let ms = t0.ms();
-            let (cls, cells) = match r {
-                Ok(Ok(b)) => ("ok", (b.layers.iter().map(|l| l.lines.iter().map(|r| r.chars.len()).sum::<usize>()).sum::<usize>()) as u64),
+            let (cls, cells) = match &r {
+                Ok(Ok(b)) => ("ok", crate::loadercost::cells_of(b)),
                 Ok(Err(_)) => ("err", 0),
                 Err(_) => ("panic", 0),
             };
+            if crate::loadercost::COSTED_EXT.contains(&ext) && data.len() <= 400_000 {
+                // the loader cost model: outcome, rows of layer 0, cells allocated
+                let (op, obs) = crate::loadercost::fb_pair(ext, &data, &r);
+                emit(format!("M {}", op));
+                emit(format!("I {}", obs));
+            }
             emit(format!("F {} {} {} {}", ext, cls, ms, cells));
             return;
         }
+        if let Some(rest) = line.strip_prefix("icyc ") {
+            // `icyc <kw>=<hexr>,…`: IcyDraw chunk payloads through the real .icy loader, compared with the cost model
+            let Some(chunks) = crate::loadercost::parse_chunks(rest.trim()) else {
+                emit("BAD".into());
+                return;
+            };
+            let (op, obs, ms, cells, flen) = crate::loadercost::icyc_case(&chunks);
+            emit(format!("M {}", op));
+            emit(format!("I {}", obs));
+            emit(format!("F icy {} {} {}", obs.split(':').next().unwrap_or("?").split(' ').next().unwrap_or("?"), ms, cells));
+            let _ = flen;
+            return;
+        }
+        if let Some(rest) = line.strip_prefix("tdf ") {
+            // `tdf <hexr>`: a TheDraw font bundle, timed (the outcome is C02's business)
+            let Some(data) = crate::icybox::unhexr(rest.trim()) else {
+                emit("BAD".into());
+                return;
+            };
+            let t0 = Stopwatch::start();
+            let r = catch(std::panic::AssertUnwindSafe(|| icy_engine::TheDrawFont::from_tdf_bytes(&data).map(|f| f.len()).map_err(|e| e.to_string())));
+            let ms = t0.ms();
+            let cls = match r {
+                Ok(Ok(_)) => "ok",
+                Ok(Err(_)) => "err",
+                Err(_) => "panic",
+            };
+            emit(format!("F tdf {} {} 0", cls, ms));
+            return;
+        }
         if let Some(rest) = line.strip_prefix("sixel ") {
-            let data = String::from_utf8_lossy(&unhex(rest.trim())).to_string();
+            // payload bytes are code points (the convention of the sixel model)
+            let raw = unhex(rest.trim());
+            let data: String = raw.iter().map(|b| *b as char).collect();
             let t0 = Stopwatch::start();
             let r = catch(std::panic::AssertUnwindSafe(|| Sixel::parse_from(icy_engine::Position::default(), 1, 1, [0, 0, 0, 0], &data)));
             let ms = t0.ms();
-            let (cls, bytes) = match r {
-                Ok(Ok(s)) => ("ok", s.picture_data.len() as u64),
-                Ok(Err(_)) => ("err", 0),
-                Err(_) => ("panic", 0),
+            let (cls, bytes, obs) = match r {
+                Ok(Ok(s)) => ("ok", s.picture_data.len() as u64, format!("ok {} {} {}", s.get_width(), s.get_height(), s.picture_data.len())),
+                Ok(Err(_)) => ("err", 0, "err".to_string()),
+                Err(_) => ("panic", 0, "panic".to_string()),
             };
+            emit(format!("M loadercost sixel {}", hex(&raw)));
+            emit(format!("I {}", obs));
             emit(format!("X {} {} {}", cls, ms, bytes));
             return;
         }
@@ -73,7 +113,15 @@ pub fn worker(inp: &str, out: &std::path::Path) {
                 emit(format!("M {}", o.op));
                 emit(format!("I {}", o.obs));
             }
-            emit(format!("L {} {} {} {}", tag, o.class, ms, bytes.len()));
+            // an accepted font: the glyph count it declares (`ok [slot] w h LENGTH glyphs`) - every later loop over the font
+            // (checksum, conversion, saving) runs that many times, so it has to be backed by the bytes of the file
+            let declared: u64 = if tag.starts_with("@font") && o.class == "ok" {
+                let f: Vec<&str> = o.obs.split_whitespace().collect();
+                if f.len() >= 5 { f[f.len() - 2].parse().unwrap_or(0) } else { 0 }
+            } else {
+                0
+            };
+            emit(format!("L {} {} {} {} {}", tag, o.class, ms, bytes.len(), declared));
             if ms >= slow_ms() {
                 crate::fontpal::note_slow(&crate::fontpal::family_of(line));
             }
@@ -272,6 +320,106 @@ fn csi_table(w: i32, h: i32, rng: &mut Rng, thorough: bool) -> Vec<Vec<Token>> {
     out
 }
 
+/// "every repeat clamp leans on the terminal size": a text-area resize `CSI 8 ; rows ; cols t` with extreme sizes FOLLOWED BY each
+/// repeat-style command with an extreme count (labels start with `RSZ`: these cases run in the worker chain with the breaker)
+fn resize_then_repeat_cases(rng: &mut Rng, thorough: bool) -> Vec<Vec<Token>> {
+    let sizes: [&str; 9] = ["0", "1", "25", "60", "61", "132", "133", "65536", "2147483647"];
+    // final bytes (with intermediates) of the commands whose loop count is a parameter clamped by the screen
+    let cmds: [(&str, &str); 16] = [
+        ("b", "b"), ("S", "S"), ("T", "T"), ("L", "L"), ("M", "M"), ("@", "@"), ("P", "P"), ("X", "X"), ("I", "I"), ("Z", "Z"), ("Y", "Y"),
+        ("A", "A"), ("B", "B"), ("SP@", " @"), ("SPA", " A"), ("e", "e"),
+    ];
+    let mut v = Vec::new();
+    for rows in sizes {
+        for cols in sizes {
+            let big = rows.len() > 3 || cols.len() > 3;
+            for (name, fin) in cmds {
+                if !thorough && !big && !rng.chance(1, 4) {
+                    continue;
+                }
+                if !thorough && big && !rng.chance(1, 2) {
+                    continue;
+                }
+                let n = *rng.pick(&["2147483647", "65536", "1000000"]);
+                let pre = if rng.chance(1, 2) { tok("pre:fill", "\x1b[65;1;1;9999;9999$x\x1b[2;5r") } else { tok("pre:scroll", "\n\n\nAB") };
+                v.push(vec![
+                    pre,
+                    tok("RSZ:CSIt", &format!("\x1b[8;{};{}t", rows, cols)),
+                    tok(&format!("RSZ:CSI{}", name), &format!("A\x1b[{}{}", n, fin)),
+                    tok("post", "Z\n"),
+                ]);
+            }
+        }
+    }
+    // the sequence inside a macro, and two resizes in a row
+    v.push(vec![
+        tok("DCS!z1", "\x1bP1;0;1!z1B5B383B323134373438333634373B38307431B5B3231343734383336343753\x1b\\"),
+        tok("RSZ:CSI*z", "\x1b[1*z"),
+        tok("post", "Z\n"),
+    ]);
+    v.push(vec![tok("RSZ:CSIt", "\x1b[8;2147483647;2147483647t\x1b[8;2147483647;1t"), tok("RSZ:CSIb", "A\x1b[2147483647b"), tok("post", "Z\n")]);
+    v
+}
+
+/// "every sixel raster/repeat header": raster attributes, repeat counts (before data AND before control characters), colour
+/// registers and cursor positions at the limits of the decoder (MAX_SIXEL_SIZE = 4096, MAX_SIXEL_COLORS = 4096) and far beyond,
+/// alone and combined; structured random payloads of at most 64 bytes built from the same numbers
+fn sixel_cost_payloads(rng: &mut Rng, thorough: bool) -> Vec<String> {
+    let nums: [&str; 12] = ["0", "1", "6", "100", "4095", "4096", "4097", "65536", "1000000", "2147483599", "2147483647", "99999999999"];
+    let mut v: Vec<String> = Vec::new();
+    // raster attributes: 3 and 4 numbers
+    for a in nums {
+        v.push(format!("\"1;1;{}~", a));
+        for b in ["0", "1", "4096", "4097", "2147483647"] {
+            v.push(format!("\"1;1;{};{}~", a, b));
+            v.push(format!("\"1;1;{};{}", b, a));
+        }
+    }
+    // repeat counts in front of data, empty cells and every control character
+    for a in nums {
+        for ch in ["~", "?", "-", "$", "#", "!", "\"", "\u{7f}"] {
+            v.push(format!("!{}{}", a, ch));
+            v.push(format!("!{}{}~-~", a, ch));
+        }
+        v.push(format!("!{}?~", a));
+        v.push(format!("!{}-!{}-~", a, a));
+        v.push(format!("~$!{}~$!{}~", a, a));
+    }
+    // colour registers: selection and definition (RGB, HLS, wrong formats)
+    for a in nums {
+        v.push(format!("#{}~", a));
+        v.push(format!("#{};2;100;0;0~", a));
+        v.push(format!("#{};1;120;50;50~", a));
+        v.push(format!("#1;2;{};{};{}~", a, a, a));
+        v.push(format!("#{};3;0;0;0~", a));
+    }
+    // the largest legal picture and its neighbours (64 MB each: only a few)
+    v.push("\"1;1;4096;4096".into());
+    v.push("\"1;1;4096;4096\"1;1;1;1\"1;1;4096;4096~".into());
+    v.push("!4096~$!4096~-!4096~".into());
+    v.push(format!("{}~", "-".repeat(700)));
+    v.push(format!("!682-~"));
+    v.push(format!("!683-~"));
+    // structured random payloads of at most 64 bytes
+    for _ in 0..(if thorough { 2000 } else { 150 }) {
+        let mut s = String::new();
+        while s.len() < 40 {
+            let n = *rng.pick(&nums[..]);
+            match rng.below(8) {
+                0 => s.push_str(&format!("\"{};{};{};{}", rng.below(3), rng.below(3), n, rng.pick(&nums[..6]))),
+                1 => s.push_str(&format!("!{}{}", n, rng.pick(&["~", "?", "-", "$", "A"]))),
+                2 => s.push_str(&format!("#{};2;{};0;0", rng.pick(&nums[..7]), rng.below(101))),
+                3 => s.push('-'),
+                4 => s.push('$'),
+                _ => s.push(*rng.pick(&['~', '?', '@', 'N', '^'])),
+            }
+        }
+        s.truncate(64);
+        v.push(s);
+    }
+    v
+}
+
 fn macro_cases() -> Vec<Vec<Token>> {
     let mut v = Vec::new();
     let def = |id: u32, hexbody: &str| tok("DCS!z1", &format!("\x1bP{};0;1!z{}\x1b\\", id, hexbody));
@@ -306,6 +454,9 @@ pub fn run(run: &mut Run, seed: u64, thorough: bool, replay: Option<&str>, corpu
             c.to_string()
         } else if c.starts_with("rect_") {
             c.replace('_', " ")
+        } else if c.starts_with("icyc_") || c.starts_with("tdf_") {
+            // chunk keywords contain underscores (LAYER_0): only the separator after the kind is a blank
+            c.replacen('_', " ", 1)
         } else if c.starts_with("file_") || c.starts_with("sixel_") {
             c.replacen('_', " ", 1).replacen('_', " ", if c.starts_with("file_") { 1 } else { 0 })
         } else {
@@ -331,6 +482,9 @@ pub fn run(run: &mut Run, seed: u64, thorough: bool, replay: Option<&str>, corpu
             cases.push(case_line(Emu::Ansi(0), 80, 25, &toks));
             cases.push(case_line(Emu::Ansi(0), 132, 60, &toks));
         }
+        for toks in resize_then_repeat_cases(&mut rng, thorough) {
+            cases.push(case_line(Emu::Ansi(0), 80, 25, &toks));
+        }
         // Avatar repeat with every large count
         for n in [0u32, 1, 255, 65535, 0x10FFFF] {
             if let Some(c) = char::from_u32(n) {
@@ -341,6 +495,9 @@ pub fn run(run: &mut Run, seed: u64, thorough: bool, replay: Option<&str>, corpu
         for s in ["\"1;1;100000;100000~", "\"1;1;2147483647;2147483647~", "!2147483647~", "!1000000~-!1000000~", "#0;2;100;100;100!99999~$-", "!99999999999~", "\"99999999999;1;1;1!5~"] {
             cases.push(format!("sixel {}", hex(s.as_bytes())));
             cases.push(case_line(Emu::Ansi(0), 80, 25, &[tok("DCSq", &format!("\x1bPq{}\x1b\\", s)), tok("post", "Z\n")]));
+        }
+        for s in sixel_cost_payloads(&mut rng, thorough) {
+            cases.push(format!("sixel {}", hex(s.as_bytes())));
         }
         // custom font DCS payloads: PSF2 header declaring extreme sizes (base64 of the header only)
         cases.push(case_line(Emu::Ansi(0), 80, 25, &[tok("DCSfont", "\x1bPCTerm:Font:1:crVKhgAAAAAgAAAAAAAAAP///38QAAAAEAAAAAgAAAA=\x1b\\")]));
@@ -404,12 +561,16 @@ pub fn run(run: &mut Run, seed: u64, thorough: bool, replay: Option<&str>, corpu
         cases.push(format!("file bin {}", hex(&[65u8, 7])));
         cases.push(format!("file adf {}", hex(&[1u8; 300])));
         cases.extend(binary_header_cases(thorough));
+        // loader cost: structured files of every costed format (compared with the cost models), IcyDraw chunks, TheDraw bundles
+        cases.extend(crate::loadercost::cost_file_cases(&mut rng, thorough));
+        cases.extend(crate::loadercost::icyc_cases(&mut rng, thorough));
+        cases.extend(crate::loadercost::tdf_cases(thorough));
     }
     std::env::set_var("VERIF_WORKER_VMEM_KB", "6000000");
     // the loader and rectangle cases are cheap: they get their own worker chain (in parallel with the stream cases) whose
     // no-progress timeout is 8 s (the per-case "slow" threshold is 3 s), so a loop that never ends costs 8 s, not 20 s
     // (streams whose token is a rectangle command go with them: one family for the breaker)
-    let is_light = |c: &String| c.starts_with('@') || c.starts_with("rect ") || ["CSI$x", "CSI$z", "CSI${", "CSI*y", "CSI$w"].iter().any(|l| c.contains(l));
+    let is_light = |c: &String| c.starts_with('@') || c.starts_with("rect ") || ["CSI$x", "CSI$z", "CSI${", "CSI*y", "CSI$w", "RSZ:"].iter().any(|l| c.contains(l));
     let (light, heavy): (Vec<String>, Vec<String>) = cases.iter().cloned().partition(|c| is_light(c));
     let cases: Vec<String> = heavy.iter().chain(light.iter()).cloned().collect();
     let results = if replay.is_some() || light.is_empty() {
@@ -426,13 +587,17 @@ pub fn run(run: &mut Run, seed: u64, thorough: bool, replay: Option<&str>, corpu
     for (case, res) in cases.iter().zip(results.iter()) {
         let mut parts = case.split_whitespace();
         let first = parts.next().unwrap_or("?").to_string();
-        let short: String = if first == "file" || first == "sixel" || first == "rect" || first.starts_with('@') {
+        let short: String = if first == "icyc" || first == "tdf" {
+            case.replacen(' ', "_", 1)
+        } else if first == "file" || first == "sixel" || first == "rect" || first.starts_with('@') {
             case.replace(' ', "_")
         } else {
             case.split_whitespace().take(4).collect::<Vec<_>>().join("_")
         };
         let fam = if first.starts_with("ansi") {
             "ansi".to_string()
+        } else if first == "icyc" || first == "tdf" {
+            "file".to_string()
         } else if first.starts_with('@') {
             // @font:…, @fontdcs.1:…, @palf.pal:…  ->  font / fontdcs / palf
             first[1..].split(|c| c == ':' || c == '.').next().unwrap_or("font").to_string()
@@ -444,6 +609,10 @@ pub fn run(run: &mut Run, seed: u64, thorough: bool, replay: Option<&str>, corpu
             Err(reason) => {
                 let label = if first == "sixel" {
                     "payload".to_string()
+                } else if first == "icyc" {
+                    "icy".to_string()
+                } else if first == "tdf" {
+                    "tdf".to_string()
                 } else if first == "file" || first == "rect" {
                     case.split_whitespace().nth(1).unwrap_or("?").to_string()
                 } else if first.starts_with('@') {
@@ -486,7 +655,9 @@ pub fn run(run: &mut Run, seed: u64, thorough: bool, replay: Option<&str>, corpu
                         Some(&"X") => {
                             let ms: u128 = p[2].parse().unwrap_or(0);
                             let bytes: u64 = p[3].parse().unwrap_or(0);
-                            if ms >= slow_ms() || bytes > 64_000_000 {
+                            // the largest picture the decoder builds: MAX_SIXEL_SIZE x MAX_SIXEL_SIZE pixels of 4 bytes (theorem sixel_picture_bounded)
+                            let max_bytes = 4 * (icy_engine::MAX_SIXEL_SIZE as u64) * (icy_engine::MAX_SIXEL_SIZE as u64);
+                            if ms >= slow_ms() || bytes > max_bytes {
                                 run.oracle_fail("sixel:slow-or-huge", &short, &format!("sixel decode took {} ms, {} bytes", ms, bytes));
                             }
                             run.evaluations += 1;
@@ -498,6 +669,13 @@ pub fn run(run: &mut Run, seed: u64, thorough: bool, replay: Option<&str>, corpu
                             let ms: u128 = p[3].parse().unwrap_or(0);
                             if ms >= slow_ms() {
                                 run.oracle_fail(&format!("{}:slow", fam), &short, &format!("loader case {} took {} ms for {} bytes", p[1], ms, p[4]));
+                            }
+                            // "independent of declared font sizes": the glyph count of an accepted font is backed by the file
+                            // (theorem font_loader_cost: the checksum loop runs at most max(512, |d|) times)
+                            let len: u64 = p[4].parse().unwrap_or(0);
+                            let declared: u64 = p.get(5).and_then(|v| v.parse().ok()).unwrap_or(0);
+                            if declared > len.max(512) {
+                                run.oracle_fail(&format!("{}:length-not-backed", fam), &short, &format!("a font of {} bytes was accepted with {} glyphs: every loop over the font runs that often", len, declared));
                             }
                             run.evaluations += 1;
                             run.nontrivial(fnv(case.bytes().map(|b| b as u64)));
@@ -566,6 +744,16 @@ fn font_cost_cases(rng: &mut Rng, thorough: bool) -> Vec<String> {
             let mut f = [PSF2_MAGIC, 0, 32, 0, 4, 2, 2, 8];
             f[fi] = v;
             cs.push(case("@fontdcs.1", &psf2(f, 8, 0x77)));
+        }
+    }
+    // PSF2 headers with ZERO bytes per glyph (charsize 0, width 0 or height 0 - then `length * charsize + headersize == len` holds
+    // for every declared length) and huge declared glyph counts, header only and with data behind it; also through the DCS
+    for length in [1u32, 256, 65536, 0x7FFF_FFFF, 0x8000_0000, 0xFFFF_FFFF] {
+        for (height, width) in [(16u32, 0u32), (0, 8), (0, 0), (1, 0), (0xFFFF_FFFF, 0)] {
+            for n in [0usize, 16] {
+                cs.push(case("@font", &psf2([PSF2_MAGIC, 0, 32, 0, length, 0, height, width], n, 0x3C)));
+            }
+            cs.push(case("@fontdcs.0", &psf2([PSF2_MAGIC, 0, 32, 0, length, 0, height, width], 0, 0)));
         }
     }
     // consistent PSF2 headers whose numbers are large but backed by the file
